@@ -146,9 +146,15 @@ def ZeroPreserving (s : Option Stage) : Prop := ∀ f, s = some f → ∀ a, IsZ
 inductive StageFn
   | chan (k : Nat)            -- MonochromaticReduction(color = red / green / blue)
   | chanAdd (k l : Nat)       -- "red+green"
+  | gray                      -- "gray" (default): cv2 RGB → gray, 0.299 R + 0.587 G + 0.114 B
+  | negKey                    -- "negative-key": 1 - min(1 - c) over the channels = the largest channel
   | affine (a b : Rat)        -- LinearModel(scaling, offset) / ScalingModel
   | clip (lo : Rat) (hi : Option Rat)  -- ClipModel
   deriving Repr
+
+/-- the documented gray value of an RGB pixel (ITU-R 601 weights, channel order R, G, B) -/
+def grayOf (p : Px) : Rat :=
+  (299 : Rat) / 1000 * listGetD p 0 0 + (587 : Rat) / 1000 * listGetD p 1 0 + (114 : Rat) / 1000 * listGetD p 2 0
 
 def clipR (lo : Rat) (hi : Option Rat) (x : Rat) : Rat :=
   let y := if x ≤ lo then lo else x
@@ -157,6 +163,8 @@ def clipR (lo : Rat) (hi : Option Rat) (x : Rat) : Rat :=
 def StageFn.eval : StageFn → Arr → Arr
   | .chan k, a => { scalar := true, px := a.px.map fun p => [listGetD p k 0] }
   | .chanAdd k l, a => { scalar := true, px := a.px.map fun p => [listGetD p k 0 + listGetD p l 0] }
+  | .gray, a => { scalar := true, px := a.px.map fun p => [grayOf p] }
+  | .negKey, a => { scalar := true, px := a.px.map fun p => [1 - (p.map (1 - ·)).foldl (fun m x => if x ≤ m then x else m) ((1 - p.headD 0))] }
   | .affine s o, a => { a with px := a.px.map fun p => p.map fun x => s * x + o }
   | .clip lo hi, a => { a with px := a.px.map fun p => p.map (clipR lo hi) }
 
